@@ -92,6 +92,15 @@ def gen_cases(tier, seed):
             if ranks[0] == 1:
                 # 0 = "choose this mode's rank automatically"; the other modes stay explicit
                 yield C(w="hosvd_ranks", fam="random", shape=shape, dseed=dseed, ranks=[0] + list(ranks[1:]), sequential=True, dimorder=None)
+    # data of exactly low multilinear rank (numerical rank below the requested one: the surplus vectors belong to a zero eigenvalue and
+    # must still be orthonormal), with tall unfoldings (a mode longer than the product of the others, also after sequential shrinking)
+    for shape, true, ranks in (([10, 3, 3], [2, 2, 2], [4, 3, 3]), ([6, 6, 6], [2, 2, 2], [2, 2, 4]), ([8, 2, 3], [1, 1, 1], [3, 2, 2]), ([4, 9, 2], [2, 3, 1], [3, 5, 2]),
+                               ([5, 5], [2, 2], [4, 3]), ([7, 2, 2, 2], [2, 1, 2, 1], [5, 2, 2, 2]), ([3, 12], [2, 2], [3, 3])):
+        for seq in (True, False):
+            for do_ in (None, list(range(len(shape)))[::-1]):
+                yield C(w="hosvd_ranks", fam="exact-lowrank", true=true, shape=shape, dseed=int(rng.integers(0, 2 ** 31)), ranks=ranks, sequential=seq, dimorder=do_)
+        yield C(w="hosvd_grid", fam="exact-lowrank", true=true, shape=shape, dseed=int(rng.integers(0, 2 ** 31)), tol=[1e-6, 1e-3, 0.1][int(rng.integers(0, 3))],
+                sequential=bool(rng.integers(0, 2)), dimorder=None)
     if True:
         shape = [3, 4, 2]
         for p in itertools.permutations(range(3)):
@@ -112,6 +121,13 @@ def gen_cases(tier, seed):
             ranks = [2] * N
         yield C(w="tucker_als", fam="lowrank-noise", noise=[1e-5, 1e-6, 1e-4, 1e-8, 0.0, 1e-7][i % 6], shape=shape, dseed=int(rng.integers(0, 2 ** 31)), ranks=ranks,
                 init=["random", "nvecs"][i % 2], scalar_rank=False, dimorder=None, maxiters=int(rng.integers(2, 6)), printitn=0, gseed=int(rng.integers(0, 2 ** 31)))
+    # Tucker-ALS on data with a singleton mode, at every position of the sweep order (first, interior, last)
+    for shape, ranks in (([4, 3, 1], [2, 2, 1]), ([1, 4, 3], [1, 2, 2]), ([3, 1, 4], [3, 1, 3]), ([4, 3, 1], [2, 3, 1]), ([3, 1, 1, 4], [2, 1, 1, 2]), ([1, 5], [1, 1])):
+        N_ = len(shape)
+        for do_ in [None] + [[int(x) for x in rng.permutation(N_)] for _ in range(2)]:
+            for init in ("random", "nvecs", "given"):
+                yield C(w="tucker_als", fam="random", shape=shape, dseed=int(rng.integers(0, 2 ** 31)), ranks=ranks, init=init, scalar_rank=False, dimorder=do_,
+                        maxiters=int(rng.integers(1, 5)), printitn=int(rng.choice([0, 1])), gseed=int(rng.integers(0, 2 ** 31)), singleton=True)
     # Tucker-ALS
     nals = 60 if tier == "quick" else 600
     for i in range(nals):
@@ -174,6 +190,9 @@ def _data0(case):
             A = np.zeros(shape)
             for i_ in range(min(shape)):
                 A[(i_,) * len(shape)] = [2.0, 5.0, 3.0, 1.0, 4.0][i_ % 5]
+    elif case["fam"] == "exact-lowrank":
+        U = [np.linalg.qr(rng.standard_normal((s, s)))[0][:, :r_] for s, r_ in zip(shape, case["true"])]
+        A = refops.ttm(rng.standard_normal(case["true"]), U, list(range(len(shape))))
     elif case["fam"] == "lowrank-noise":
         # (almost) exactly of the requested multilinear rank: residuals between rounding level and 1e-4 of the data norm
         ranks = case["ranks"]
